@@ -33,7 +33,7 @@ STUBBED = ["none inside the calls; sequenceParameters.print / backendtools chatt
 ASSUMPTIONS = ["positions are Python ints (single, list or tuple); other types are outside the statement and not generated",
                "derived values are compared with the real code on a fresh object built from the substituted string (tolerance 1e-12)",
                "calls are atomic; interleaving = which live object's call runs next"]
-PROBES = ["same_list_object_passed_again", "caller_scribbles_on_returned_container", "op_not_followed_by_observation", "shuffled_copy_is_live_object", "object_created_mid_history", "related_objects", "pos_zero", "pos_negative", "pos_N_plus_1", "pos_huge", "dup_in_call", "dup_across_calls", "non_sty_in_range",
+PROBES = ["dist_k_ge_9", "position_above_256", "same_list_object_passed_again", "caller_scribbles_on_returned_container", "op_not_followed_by_observation", "shuffled_copy_is_live_object", "object_created_mid_history", "related_objects", "pos_zero", "pos_negative", "pos_N_plus_1", "pos_huge", "dup_in_call", "dup_across_calls", "non_sty_in_range",
           "set_after_clear", "dist_k_ge_3", "kappa_after_with_sites", "tuple_arg", "int_arg", "hostile_with_sites_held",
           "second_object_checked"]
 STY = "STY"
@@ -43,9 +43,15 @@ def gen_plan(streams, tier):
     rnd = streams.stream("plan")
     nobj = rnd.choice((1, 1, 2, 2, 3))
     objs = []
+    longrun = rnd.random() < 0.03        # positions beyond 256 (where small-integer caching ends) need long sequences
+    manysites = rnd.random() < 0.03      # more than 8 sites: the 2^k table outgrows one byte
     for _ in range(nobj):
         n = rnd.choice((rnd.randrange(1, 8), rnd.randrange(5, 25), rnd.randrange(10, 41)))
         cls = rnd.choice(("sty_rich", "sty_rich", "idp", "polyampholyte", "uniform", "nocharge"))
+        if longrun:
+            n, cls = rnd.randrange(262, 330), "sty_rich"
+        elif manysites:
+            n, cls = rnd.randrange(10, 15), "sty_rich"
         objs.append(gen_seq(rnd, n, cls))
     if nobj > 1 and rnd.random() < 0.45 and len(objs[0]) <= 20:
         # relatives of object 0: tandem repeat (same fractions, different counts), permutation, or the same string
@@ -93,6 +99,10 @@ def gen_plan(streams, tier):
                                        -N, -N - 1))
                 sty = [i + 1 for i, c in enumerate(s) if c in STY]
                 if sty and rnd.random() < 0.75:
+                    if longrun and rnd.random() < 0.7:
+                        hi = [q for q in sty if q > 257]
+                        if hi:
+                            return rnd.choice(hi[:6])       # few distinct high positions: repeats across calls are likely
                     return rnd.choice(sty)
                 return rnd.randrange(1, N + 1)
             t = rnd.choice(("int", "list", "list", "tuple"))
@@ -154,6 +164,12 @@ def corpus():
         {"k": "obs", "o": 0, "w": "all", "scribble": True}, {"k": "set", "o": 0, "t": "list", "v": [2, 5, 1]}, {"k": "obs", "o": 0, "w": "sites", "scribble": True},
         {"k": "obs", "o": 0, "w": "pseq"}, {"k": "set", "o": 0, "t": "int", "v": [7]}, {"k": "obs", "o": 0, "w": "all", "scribble": True},
         {"k": "clear", "o": 0}, {"k": "set", "o": 0, "t": "tuple", "v": [11, 2, 3]}, {"k": "obs", "o": 0, "w": "dist"}]}))
+    out.append(("nine_sites_distribution", {"property": ID, "run_seed": 166, "objects": ["SSSTTTYYYSKE"], "ops": [
+        {"k": "set", "o": 0, "t": "list", "v": [9, 1, 5, 2, 8, 3, 7, 4, 6]}, {"k": "obs", "o": 0, "w": "dist"}, {"k": "obs", "o": 0, "w": "kappa"}]}))
+    longseq = ("GSKETGSKETYAD" * 24)[:300]
+    out.append(("positions_beyond_256", {"property": ID, "run_seed": 167, "objects": [longseq], "ops": [
+        {"k": "set", "o": 0, "t": "list", "v": [262, 288, 262, 271]}, {"k": "obs", "o": 0, "w": "sites"}, {"k": "set", "o": 0, "t": "int", "v": [288]},
+        {"k": "set", "o": 0, "t": "tuple", "v": [271, 2, 297]}, {"k": "obs", "o": 0, "w": "pseq"}, {"k": "obs", "o": 0, "w": "dist"}]}))
     out.append(("order_is_first_set_order", {"property": ID, "run_seed": 162, "objects": ["SKTEYKSET"], "ops": [
         {"k": "set", "o": 0, "t": "list", "v": [7, 1, 5]}, {"k": "set", "o": 0, "t": "list", "v": [3, 7]},
         {"k": "obs", "o": 0, "w": "dist"}, {"k": "obs", "o": 0, "w": "kappa"}]}))
@@ -243,8 +259,10 @@ def execute(plan, ctx):
                 raise Violation("kappa_after_mismatch", "kappa_after", "object %d (%s) sites %r: kappa after phosphorylation %r, kappa of %s is %r" % (
                     i, seqs[i], model[i], got, sub(i), want))
         elif w == "dist":
-            if k > 5:
+            if k > 5 and not (k <= 10 and len(seqs[i]) <= 14):
                 return
+            if k > 8:
+                ctx.probe("dist_k_ge_9")
             if k >= 3:
                 ctx.probe("dist_k_ge_3")
             got = objs[i].get_full_phosphostatus_kappa_distribution()
@@ -311,6 +329,12 @@ def execute(plan, ctx):
                     classes.add("neg"); ctx.probe("pos_negative")
                 elif p == N + 1:
                     classes.add("N+1"); ctx.probe("pos_N_plus_1")
+                elif 256 < p <= N:
+                    ctx.probe("position_above_256")
+                    if s[p - 1] not in STY:
+                        classes.add("nonsty"); ctx.probe("non_sty_in_range")
+                    elif p in model[i]:
+                        classes.add("dupx"); ctx.probe("dup_across_calls")
                 elif p > 10 * N + 100:
                     classes.add("huge"); ctx.probe("pos_huge")
                 elif p > N:
